@@ -36,6 +36,50 @@ def trees():
     return T
 
 
+def gen_tree(seed, maxdepth=3):
+    """a drawn well-typed tree in the node language above: stack-neutral groups, nested block / loop / if-else with
+    branches to any enclosing construct (incl. the function body), typed blocks, locals, dead tails"""
+    import random
+    r = random.Random(seed)
+    cnt = [0]
+
+    def fresh(p):
+        cnt[0] += 1
+        return '%s%d' % (p, cnt[0])
+
+    def seq(labels, depth, n):
+        out = []
+        for _ in range(n):
+            c = r.randrange(10)
+            if c == 0:
+                out += [('const', fresh('k')), ('drop',)]
+            elif c == 1:
+                out += [('lget', r.randrange(len(LOCALS))), ('drop',)]
+            elif c == 2:
+                out += [('const', fresh('k')), ('lset', r.choice([0, 2, 5]))]        # the i32 locals
+            elif c == 3 and labels:
+                out += [('const', fresh('c')), ('br_if', r.choice(labels))]
+            elif c in (4, 5) and depth < maxdepth:
+                kind = r.choice(['block', 'loop'])
+                nm = fresh('B')
+                out.append((kind, nm, None, seq(labels + [nm], depth + 1, r.randint(0, 3))))
+            elif c == 6 and depth < maxdepth:
+                cn, an = fresh('C'), fresh('A')
+                out += [('const', fresh('c')), ('if', cn, an, None, seq(labels + [cn], depth + 1, r.randint(0, 2)), seq(labels + [an], depth + 1, r.randint(0, 2)))]
+            elif c == 7 and depth < maxdepth:
+                nm = fresh('T')
+                # a typed block: inner groups are stack-neutral, the value comes last; its label needs a value, so it
+                # is not offered as a branch target to the groups inside
+                out += [('block', nm, 'i32', seq(labels, depth + 1, r.randint(0, 2)) + [('const', fresh('v'))]), ('drop',)]
+            elif c == 8 and labels and depth > 0 and r.random() < 0.5:
+                out += [('br', r.choice(labels)), ('const', fresh('dead')), ('drop',)]
+                break
+            else:
+                out += [('const', fresh('k')), ('drop',)]
+        return out
+    return seq(['entry'], 0, r.randint(2, 5))
+
+
 LOCALS = ['i32', 'i64', 'i32', 'f64', 'i64', 'i32']      # local 0 is the (only) parameter
 
 
@@ -297,19 +341,27 @@ def run(tier, seed, only=None):
     timeout_ms = 60000 if tier == 'quick' else 600000
     table = witness.load_table()
 
-    def go():
-        for tname, nodes in trees().items():
-            for strategy in ('append', 'reverse', 'middle', 'dangling'):
-                if only and '%s/%s' % (tname, strategy) not in only:
-                    continue
-                run_case(ctx, report, tname, nodes, strategy, table, timeout_ms)
-        # parameters given to finish() in an order that is not the allocation order, and a scratch local allocated
-        # before the parameters (the situation replace_imported_func creates)
-        for pname in ('params-desc', 'scratch-before-params'):
-            if not only or ('locals/' + pname) in only:
-                run_case(ctx, report, 'locals@' + pname, trees()['locals'], 'append', table, timeout_ms, params=tuple(PARAMS[pname]))
-    engine.run_in_big_stack(go)
-    report.bounds = {'trees': '6 shapes (flat, nested block/loop with branches to three enclosing constructs incl. the function body, if/else with branches, typed block and if, five used locals of three types plus the parameter, dead tails)',
+    items = []
+    for tname, nodes in trees().items():
+        for strategy in ('append', 'reverse', 'middle', 'dangling'):
+            items.append(('%s/%s' % (tname, strategy), tname, nodes, strategy, (0,)))
+    # parameters given to finish() in an order that is not the allocation order, and a scratch local allocated
+    # before the parameters (the situation replace_imported_func creates)
+    for pname in ('params-desc', 'scratch-before-params'):
+        items.append(('locals/' + pname, 'locals@' + pname, trees()['locals'], 'append', tuple(PARAMS[pname])))
+    ngen = 40 if tier == 'quick' else 400
+    for k in range(ngen):
+        sd = seed * 1000 + k
+        nodes = gen_tree(sd)
+        strategy = ('append', 'reverse', 'middle', 'dangling')[k % 4]
+        pn = ('default', 'default', 'params-desc', 'scratch-before-params')[(k // 4) % 4]
+        items.append(('gen%d/%s/%s' % (sd, strategy, pn), 'gen%d@%s' % (sd, pn), nodes, strategy, tuple(PARAMS[pn])))
+    items = [i for i in items if not only or i[0] in only]
+
+    def job(ctx, report, _name, tname, nodes, strategy, params):
+        run_case(ctx, report, tname, nodes, strategy, table, timeout_ms, params=params)
+    pc.run_parallel(ctx, report, job, items)
+    report.bounds = {'generated trees': '%d drawn trees (VERIF_SEED; depth <= 3, up to 5 groups per sequence: const/drop, local get/set, br_if / br to any enclosing construct incl. the function body, block, loop, if/else, typed block, dead tails), strategies and parameter orders rotated' % ngen, 'trees': '6 shapes (flat, nested block/loop with branches to three enclosing constructs incl. the function body, if/else with branches, typed block and if, five used locals of three types plus the parameter, dead tails)',
                      'insertion orders': 'append; every instruction inserted at position 0 in reverse; first+last appended then the middle inserted at final positions (the *_at methods); dangling sequences filled then attached with instr(Block/Loop/IfElse)',
                      'constants': 'symbolic'}
     report.assumptions = ['the module starts from the real Module::default(); types/locals/exports are added through the real APIs', 'well-typedness of the built tree is by construction of the shapes (no validator run)']
